@@ -1,5 +1,5 @@
 (* C19Proofs.v — lemmas behind props/C19.v *)
-From SV Require Import Base Json Discover CorrC19.
+From SV Require Import Base Json Discover CorrC19 PathAlg.
 From Coq Require Import Arith.
 
 (* keep simpl from unfolding the fuel of the path walk *)
@@ -519,3 +519,315 @@ Qed.
 Lemma get_job_missing : forall root cwd path,
   os_exists root cwd (abspath cwd path) = false -> get_job root cwd path = (Err ELookupError, root).
 Proof. intros root cwd path X. unfold get_job. rewrite X. reflexivity. Qed.
+
+(* ------------------------------------------------------------------ component level = string level
+   The oracle of CorrC19 speaks about path components and physical lookups; the model about
+   strings.  On a normalised absolute path they are the same thing. *)
+Lemma forallb_rev : forall A (f : A -> bool) l, forallb f (rev l) = forallb f l.
+Proof.
+  induction l as [|x l IH]; simpl; [reflexivity|].
+  rewrite forallb_app, IH. simpl. rewrite andb_true_r. apply andb_comm.
+Qed.
+
+Section Comps.
+  Variable root : node.
+  Variable cwd : str.
+
+  Lemma os_resolve_abs_of : forall cs, cs <> [] -> forallb cleanb cs = true ->
+    os_resolve root cwd (abs_of cs) = phys root cs.
+  Proof.
+    intros cs N H. unfold os_resolve, phys, os_full. simpl starts_sl. cbv iota.
+    rewrite split_abs_of by assumption. reflexivity.
+  Qed.
+
+  Lemma cfg_at_has_cfg : forall cs, forallb cleanb cs = true -> cfg_at root cwd (abs_of cs) = has_cfg root cs.
+  Proof.
+    intros cs H. unfold cfg_at, has_cfg, os_isfile, os_stat.
+    rewrite cfgfn_abs_of by assumption.
+    rewrite os_resolve_abs_of; [destruct (phys root (cs ++ [s_dotsignac; s_config])); reflexivity| destruct cs; discriminate |].
+    rewrite forallb_app, H. reflexivity.
+  Qed.
+
+  Lemma isfile_has_cfg : forall cs, forallb cleanb cs = true ->
+    os_isfile root cwd (abs_of (cs ++ [s_dotsignac; s_config])) = has_cfg root cs.
+  Proof.
+    intros cs H. unfold has_cfg, os_isfile, os_stat.
+    rewrite os_resolve_abs_of; [destruct (phys root (cs ++ [s_dotsignac; s_config])); reflexivity| destruct cs; discriminate |].
+    rewrite forallb_app, H. reflexivity.
+  Qed.
+
+  Lemma nearest_clean : forall rcomps r, forallb cleanb rcomps = true -> nearest root rcomps = Some r ->
+    forallb cleanb r = true.
+  Proof.
+    induction rcomps as [|c rc IH]; intros r H E; simpl in E.
+    - destruct (has_cfg root []); inversion E; reflexivity.
+    - destruct (has_cfg root (rev rc ++ [c])).
+      + inversion E; subst. change (rev rc ++ [c]) with (rev (c :: rc)). rewrite forallb_rev. exact H.
+      + simpl in H. apply andb_true_iff in H. apply IH; tauto.
+  Qed.
+
+  Lemma dirname_abs_of_rev : forall c rc, forallb cleanb (c :: rc) = true ->
+    dirname (abs_of (rev (c :: rc))) = abs_of (rev rc) /\ abs_of (rev (c :: rc)) <> abs_of (rev rc).
+  Proof.
+    intros c rc H. simpl in H. apply andb_true_iff in H. destruct H as [Hc Hrc]. simpl rev. split.
+    - destruct (rev rc) eqn:E.
+      + simpl. apply dirname_abs_of_single. exact Hc.
+      + rewrite <- E. apply dirname_abs_of_snoc; auto.
+        * rewrite E. discriminate.
+        * rewrite forallb_rev. exact Hrc.
+    - apply abs_of_snoc_neq. exact Hc.
+  Qed.
+
+  Lemma nearest_sound : forall rcomps r, forallb cleanb rcomps = true -> nearest root rcomps = Some r ->
+    nearest_cfg root cwd (abs_of (rev rcomps)) (abs_of r).
+  Proof.
+    induction rcomps as [|c rc IH]; intros r H E.
+    - simpl in E. destruct (has_cfg root []) eqn:C; inversion E; subst.
+      apply NC_here. rewrite cfg_at_has_cfg by reflexivity. exact C.
+    - assert (Hrev : forallb cleanb (rev (c :: rc)) = true) by (rewrite forallb_rev; exact H).
+      simpl in E. destruct (has_cfg root (rev rc ++ [c])) eqn:C.
+      + inversion E; subst. apply NC_here. change (rev rc ++ [c]) with (rev (c :: rc)).
+        rewrite cfg_at_has_cfg by exact Hrev. exact C.
+      + destruct (dirname_abs_of_rev c rc H) as [D Ne].
+        apply NC_up.
+        * rewrite cfg_at_has_cfg by exact Hrev. exact C.
+        * rewrite D. auto.
+        * rewrite D. apply IH; auto. simpl in H. apply andb_true_iff in H. tauto.
+  Qed.
+
+  Lemma nearest_none_sound : forall rcomps, forallb cleanb rcomps = true -> nearest root rcomps = None ->
+    no_cfg_above root cwd (abs_of (rev rcomps)).
+  Proof.
+    induction rcomps as [|c rc IH]; intros H E.
+    - simpl in E. destruct (has_cfg root []) eqn:C; [discriminate|].
+      apply NA_top; [rewrite cfg_at_has_cfg by reflexivity; exact C | reflexivity].
+    - assert (Hrev : forallb cleanb (rev (c :: rc)) = true) by (rewrite forallb_rev; exact H).
+      simpl in E. destruct (has_cfg root (rev rc ++ [c])) eqn:C; [discriminate|].
+      destruct (dirname_abs_of_rev c rc H) as [D Ne].
+      apply NA_up.
+      + rewrite cfg_at_has_cfg by exact Hrev. exact C.
+      + rewrite D. auto.
+      + rewrite D. apply IH; auto. simpl in H. apply andb_true_iff in H. tauto.
+  Qed.
+
+  Lemma older_up_not_lookup : forall n sp, older_up n root cwd sp = Some ELookupError -> False.
+  Proof.
+    induction n as [|n IH]; intros sp O; simpl in O; [discriminate|].
+    unfold raise_if_older in O at 1.
+    destruct (get_version root cwd sp SCHEMA) as [v|].
+    - destruct (Z.eqb v SCHEMA); discriminate.
+    - destruct (str_eqb (dirname sp) sp); [discriminate|]. eauto.
+  Qed.
+
+  (* get_project on a query whose normalised form is /comps: soundness w.r.t. the component-level spec *)
+  Section Query.
+    Variable path : str.
+    Variable comps : list str.
+    Hypothesis Hclean : forallb cleanb comps = true.
+    Hypothesis Habs : abspath cwd path = abs_of comps.
+    Hypothesis Hcfg : cfgfn cwd path = abs_of (comps ++ [s_dotsignac; s_config]).
+    Hypothesis Hreg : os_resolve root cwd path = phys root comps.
+
+    Lemma exists_phys : os_exists root cwd path = true -> phys root comps <> None.
+    Proof.
+      unfold os_exists, os_stat. rewrite Hreg. destruct (phys root comps); [discriminate|]. discriminate.
+    Qed.
+
+    Lemma not_exists_phys : os_exists root cwd path = false ->
+      match phys root comps with Some ph => get root ph = None | None => True end.
+    Proof.
+      unfold os_exists, os_stat. rewrite Hreg. destruct (phys root comps) as [ph|]; auto.
+      destruct (get root ph); [discriminate|reflexivity].
+    Qed.
+
+    Lemma spec_search_ok : forall s x root', get_project root cwd path s = (Ok x, root') ->
+      os_exists root cwd path = true /\
+      exists r, nearest root (rev comps) = Some r /\ x = abs_of r /\
+                (s = false -> has_cfg root comps = true /\ r = comps).
+    Proof.
+      intros s x root' G.
+      assert (X : os_exists root cwd path = true /\ (s = false -> cfg_at root cwd path = true) /\
+                  exists d, nearest_cfg root cwd (abspath cwd path) d /\ x = abspath cwd d).
+      { destruct s.
+        - destruct (get_project_nearest root cwd path x root' G) as [A B]. repeat split; auto. discriminate.
+        - destruct (get_project_nosearch root cwd path x root' G) as [A [B C]]. repeat split; auto. }
+      destruct X as [X [Cs [d [Nd Ex]]]]. split; auto. rewrite Habs in Nd.
+      assert (Hr : forallb cleanb (rev comps) = true) by (rewrite forallb_rev; exact Hclean).
+      destruct (nearest root (rev comps)) as [r|] eqn:E.
+      - pose proof (nearest_sound _ _ Hr E) as Sn. rewrite rev_involutive in Sn.
+        pose proof (nearest_cfg_unique root cwd _ _ _ Nd Sn) as Ed. subst d.
+        exists r. repeat split; auto.
+        + rewrite Ex. apply abspath_abs_of. eapply nearest_clean; eauto.
+        + specialize (Cs H). unfold cfg_at in Cs. rewrite Hcfg, isfile_has_cfg in Cs by exact Hclean. exact Cs.
+        + (* the directory itself holds the configuration: it is the nearest *)
+          specialize (Cs H). unfold cfg_at in Cs. rewrite Hcfg, isfile_has_cfg in Cs by exact Hclean.
+          destruct (rev comps) as [|c rc] eqn:R.
+          * simpl in E. assert (Z : comps = []) by (destruct comps as [|a l]; [reflexivity| simpl in R; destruct (rev l); discriminate]).
+            rewrite Z in Cs. rewrite Cs in E. inversion E. rewrite Z. reflexivity.
+          * simpl in E. assert (Ec : rev rc ++ [c] = comps).
+            { apply (f_equal (@rev str)) in R. rewrite rev_involutive in R. simpl in R. auto. }
+            rewrite Ec, Cs in E. inversion E. reflexivity.
+      - exfalso. pose proof (nearest_none_sound _ Hr E) as Sn. rewrite rev_involutive in Sn.
+        eapply nearest_not_none; eauto.
+    Qed.
+
+    Lemma spec_search_lookup_error : forall s root', get_project root cwd path s = (Err ELookupError, root') ->
+      os_exists root cwd path = false \/ nearest root (rev comps) = None \/
+      (s = false /\ has_cfg root comps = false).
+    Proof.
+      intros s root' G. unfold get_project in G.
+      destruct (os_exists root cwd path) eqn:X; simpl in G; [|left; reflexivity]. right.
+      destruct (negb s && negb (os_isfile root cwd (cfgfn cwd path))) eqn:Sx.
+      - right. apply andb_true_iff in Sx. destruct Sx as [S1 S2]. apply negb_true_iff in S1, S2.
+        rewrite Hcfg, isfile_has_cfg in S2 by exact Hclean. auto.
+      - destruct (locate_config_dir root cwd path) as [[d|]|e] eqn:L.
+        + (* project_open on a directory holding a configuration never gives LookupError *)
+          exfalso. apply locate_Some in L. pose proof (nearest_cfg_holds root cwd _ _ L) as Cd.
+          unfold project_open in G. unfold cfg_at in Cd. rewrite Cd in G.
+          destruct (read_cfg root cwd (cfgfn cwd d)); try discriminate.
+          destruct (Z.eqb (declared_version c) SCHEMA); [|discriminate].
+          destruct (os_isdir root cwd (path_join (abspath cwd d) s_workspace)); [discriminate|].
+          destruct (mkdirs root [] (split_sl (path_join (abspath cwd d) s_workspace))) as [[u|e2] r3] eqn:M; [discriminate|].
+          inversion G; subst. clear - M. revert M.
+          generalize (split_sl (path_join (abspath cwd d) s_workspace)) (@nil str). generalize root at 1 as rt.
+          intros rt l. revert rt. induction l as [|c l IH]; intros rt rc M; simpl in M; [discriminate|].
+          destruct (str_eqb c []); [eauto|].
+          destruct (get rt (rev rc)) as [[x|es|t]|]; try discriminate.
+          destruct (alookup c es) as [[x|es2|t]|]; try discriminate; eauto.
+          destruct (walk FUEL rt rc [c]) as [ph|]; [|discriminate].
+          destruct (get rt ph) as [[x|es3|t3]|]; try discriminate. eauto.
+        + left. unfold locate_config_dir in L. rewrite Habs in L.
+          destruct (loc_up (S (length (abs_of comps))) root cwd (abs_of comps)) eqn:U; [discriminate|].
+          apply loc_up_none in U; [|lia].
+          destruct (nearest root (rev comps)) as [r|] eqn:E; [|reflexivity]. exfalso.
+          assert (Hr : forallb cleanb (rev comps) = true) by (rewrite forallb_rev; exact Hclean).
+          pose proof (nearest_sound _ _ Hr E) as S2. rewrite rev_involutive in S2.
+          eapply nearest_not_none; eauto.
+        + (* the error came from the older-schema scan, which never yields LookupError *)
+          assert (He : e = ELookupError) by (inversion G; reflexivity). rewrite He in L. clear G He.
+          exfalso. unfold locate_config_dir in L.
+          destruct (loc_up (S (length (abspath cwd path))) root cwd (abspath cwd path)); [discriminate|].
+          destruct (older_up (S (length (abspath cwd path))) root cwd (abspath cwd path)) as [e2|] eqn:O; [|discriminate].
+          assert (He : e2 = ELookupError) by (inversion L; reflexivity). rewrite He in O.
+          eapply older_up_not_lookup. exact O.
+    Qed.
+  End Query.
+End Comps.
+
+(* ------------------------------------------------------------------ model_holds *)
+Lemma qres_eqb_eq : forall a b, qres_eqb a b = true -> a = b.
+Proof.
+  destruct a, b; simpl; intro H; try discriminate.
+  - apply str_eqb_eq in H. congruence.
+  - apply andb_true_iff in H. destruct H as [H1 H2]. apply str_eqb_eq in H1, H2. congruence.
+  - apply exn_eqb_eq in H. congruence.
+Qed.
+
+Lemma qres_eqb_refl : forall a, qres_eqb a a = true.
+Proof.
+  destruct a; simpl; rewrite ?str_eqb_refl; auto. apply exn_eqb_eq. reflexivity.
+Qed.
+
+Lemma optpath_eqb_eq : forall a b, optpath_eqb a b = true -> a = b.
+Proof.
+  destruct a, b; simpl; intro H; try discriminate; auto.
+  f_equal. apply (list_eqb_eq _ str_eqb str_eqb_eq). exact H.
+Qed.
+
+Lemma nearest_none_has_cfg : forall root rc, nearest root rc = None -> has_cfg root (rev rc) = false.
+Proof.
+  intros root rc H. destruct rc as [|c rc]; simpl in *.
+  - destruct (has_cfg root []); [discriminate|reflexivity].
+  - destruct (has_cfg root (rev rc ++ [c])); [discriminate|reflexivity].
+Qed.
+
+Lemma nearest_has_cfg_here : forall root rc, has_cfg root (rev rc) = true -> nearest root rc = Some (rev rc).
+Proof.
+  intros root rc H. destruct rc as [|c rc]; simpl in *; rewrite H; reflexivity.
+Qed.
+
+Definition outcome_in_vocabulary (k : qkind) (r : qres) : Prop :=
+  match k, r with
+  | QProject _, RRoot _ => True
+  | QProject _, RErr ELookupError => True
+  | QInit, RRoot _ => True
+  | _, _ => False
+  end.
+
+(* If the implementation agrees with the model on a get_project / init_project query that satisfies
+   the oracle's precondition, and the observed outcome is a project or LookupError (any other
+   exception is judged by the oracle itself, it can only make holds_q false), then the oracle holds:
+   the project returned IS the nearest enclosing one in the sense of path components and physical
+   lookups, LookupError is raised only when there is none, search=False accepts only the directory
+   itself, and init_project on an existing project returns that project. *)
+Lemma model_holds_C19 : forall base tree q,
+  pre_q base tree q = true -> agree_q base tree q = true ->
+  outcome_in_vocabulary (q_kind q) (q_res q) ->
+  (q_kind q = QInit -> q_changed q = false) ->
+  holds_q base tree q = true.
+Proof.
+  intros base tree q Hpre Hag Hvoc Hinit. unfold holds_q. rewrite Hpre.
+  set (root := mkroot base tree) in *.
+  (* unpack the precondition *)
+  unfold pre_q in Hpre. fold root in Hpre.
+  repeat (apply andb_true_iff in Hpre; destruct Hpre as [Hpre ?]).
+  match goal with H : regular root q = true |- _ => rename H into Hr end.
+  unfold regular in Hr. repeat (apply andb_true_iff in Hr; destruct Hr as [Hr ?]).
+  match goal with H : optpath_eqb _ _ = true |- _ => apply optpath_eqb_eq in H; rename H into Hreg end.
+  match goal with H : forallb cleanb _ = true |- _ => rename H into Hclean end.
+  match goal with H : str_eqb (abspath _ _) _ = true |- _ => apply str_eqb_eq in H; rename H into Habs end.
+  match goal with H : str_eqb (cfgfn _ _) _ = true |- _ => apply str_eqb_eq in H; rename H into Hcfg end.
+  set (comps := q_comps q) in *. set (cwd := q_cwd q) in *. set (path := q_path q) in *.
+  (* the existence test of the oracle is the model's os_exists *)
+  assert (Hex : os_exists root cwd path =
+                match phys root comps with
+                | Some ph => match get root ph with Some _ => true | None => false end
+                | None => false
+                end).
+  { unfold os_exists, os_stat. rewrite Hreg. destruct (phys root comps) as [ph|]; [|reflexivity].
+    destruct (get root ph); reflexivity. }
+  unfold agree_q in Hag. fold root in Hag. unfold run_q in Hag. fold cwd path in Hag.
+  unfold expected, holder_ok. fold comps. fold root.
+  destruct (q_kind q) as [s| |] eqn:K.
+  - (* get_project *)
+    destruct (get_project root cwd path s) as [[x|e] root'] eqn:G.
+    + repeat (apply andb_true_iff in Hag; destruct Hag as [Hag ?]).
+      apply qres_eqb_eq in Hag. rewrite <- Hag.
+      destruct (spec_search_ok root cwd path comps Hclean Habs Hcfg Hreg s x root' G) as [X [r [En [Ex Es]]]].
+      rewrite <- Hex, X. destruct s.
+      * rewrite En, Ex. cbv iota beta. rewrite qres_eqb_refl. reflexivity.
+      * destruct (Es eq_refl) as [Hc Er]. rewrite Hc. cbv iota beta. simpl andb. cbv iota. subst r. rewrite Ex, ?qres_eqb_refl, ?str_eqb_refl. reflexivity.
+    + repeat (apply andb_true_iff in Hag; destruct Hag as [Hag ?]).
+      apply qres_eqb_eq in Hag. rewrite <- Hag in *. simpl in Hvoc.
+      destruct e; try contradiction.
+      destruct (spec_search_lookup_error root cwd path comps Hclean Habs Hcfg s root' G) as [X|[Nn|[Es Hc]]].
+      * rewrite <- Hex, X. destruct s; reflexivity.
+      * rewrite <- Hex. destruct s.
+        -- rewrite Nn. destruct (os_exists root cwd path); reflexivity.
+        -- apply nearest_none_has_cfg in Nn. rewrite rev_involutive in Nn. rewrite Nn.
+           rewrite andb_false_r. reflexivity.
+      * subst s. rewrite Hc. rewrite andb_false_r. reflexivity.
+  - (* get_job: not covered by this lemma *)
+    simpl in Hvoc. destruct (q_res q); contradiction.
+  - (* init_project on an existing project *)
+    rewrite <- Hex.
+    destruct (os_exists root cwd path && has_cfg root comps) eqn:EH; [|reflexivity].
+    apply andb_true_iff in EH. destruct EH as [X Hc].
+    unfold init_project in Hag.
+    destruct (get_project root cwd path false) as [[x|e] root'] eqn:G.
+    + repeat (apply andb_true_iff in Hag; destruct Hag as [Hag ?]).
+      apply qres_eqb_eq in Hag. rewrite <- Hag.
+      destruct (spec_search_ok root cwd path comps Hclean Habs Hcfg Hreg false x root' G) as [_ [r [En [Ex Es]]]].
+      destruct (Es eq_refl) as [_ Er]. subst r. rewrite Ex, qres_eqb_refl. simpl.
+      unfold init_unchanged. rewrite (Hinit eq_refl). reflexivity.
+    + assert (NL : e <> ELookupError).
+      { intro Z. subst e.
+        destruct (spec_search_lookup_error root cwd path comps Hclean Habs Hcfg false root' G) as [X2|[Nn|[_ Hc2]]].
+        - congruence.
+        - apply nearest_none_has_cfg in Nn. rewrite rev_involutive in Nn. congruence.
+        - congruence. }
+      assert (Hag2 : qres_eqb (RErr e) (q_res q) = true).
+      { destruct e; try (repeat (apply andb_true_iff in Hag; destruct Hag as [Hag ?]); exact Hag).
+        congruence. }
+      apply qres_eqb_eq in Hag2. rewrite <- Hag2 in Hvoc. simpl in Hvoc. contradiction.
+Qed.
